@@ -268,7 +268,7 @@ func TestC11(t *testing.T) {
 	// file rules under a global rule that does not concern the branch (real
 	// repository; the scenario and oracle of C10's verdict campaign): what the
 	// file rules alone reject must stay rejected whatever global rule is declared
-	kit.Campaign(s, t, "file-rules-under-global", "verdict", s.Budget(32, 1_200), func(rt *rapid.T) c10VerdictCase {
+	kit.Campaign(s, t, "file-rules-under-global", "verdict", s.Budget(32, 320), func(rt *rapid.T) c10VerdictCase {
 		c := genC10Verdict(rt)
 		c.Global = rapid.SampledFrom([]string{"threshold-other-ref", "force-other-ref"}).Draw(rt, "forcedglobal")
 		return c
